@@ -1,7 +1,7 @@
 /-
-  (T) translator, part 3 — `src/helper/date.rs`: `convert_date_crate` and `excel_to_date_time_object`
+  (T) translator, part 3 — `src/helper/date.rs`: `convert_date_crate` and `excel_to_date_time_object_checked` / `excel_to_date_time_object`
   as compiled from the source on this run are the hand model's `convertDateCrate` (+ `serialOf`) and
-  `excelToEpochSeconds` (`Umya/Model/Date.lean`), for all arguments and every float interface.
+  `excelToEpochSecondsChecked` (`Umya/Model/Date.lean`), for all arguments and every float interface.
 -/
 import Umya.Lemmas.FnsGen
 import Umya.Model.Date
@@ -59,20 +59,72 @@ theorem gen_convert_date_crate (F : Type) [FloatOps F] (y m d h mi s : Int) (w :
 /-- chrono's calendar is represented by the reference calendar (trusted, as in the model) -/
 def refChrono : Chrono := ⟨daysFromCivil⟩
 
-syntax "int_eq" : tactic
-macro_rules | `(tactic| int_eq) => `(tactic| first
-  | rfl
-  | omega
-  | (split <;> (try simp only [*, if_true, if_false] at *) <;> int_eq))
+/-! chrono's checked arithmetic in the run-time library of the compiled code is the model's -/
+theorem rt_f64_as_i64_eq (F : Type) [FloatOps F] (x : F) : rt_f64_as_i64 x = clampI64 (FloatOps.toInt x) := rfl
+theorem rt_try_units_eq : rt_try_units = tryUnits := rfl
+theorem rt_checked_add_signed_eq (t d : Int) : rt_checked_add_signed refChrono t d = checkedAddSigned t d := rfl
+theorem midnight_ref (y m d : Int) : Chrono.midnight refChrono y m d = daysFromCivil y m d * 86400 := rfl
 
-/-- `excel_to_date_time_object` as it is in the source (base date by the two thresholds, the floor / fraction
-    chain, the `Duration` sum) = the model's second count; the unused time-zone argument is irrelevant -/
+/-- the three base dates, in seconds (closed terms: evaluated once) -/
+theorem base_seconds : daysFromCivil 1970 1 1 * 86400 = 0 ∧ daysFromCivil 1899 12 31 * 86400 = -2209075200 ∧
+    daysFromCivil 1899 12 30 * 86400 = -2209161600 := by decide
+
+theorem tryUnits_bind {β} (u n : Int) (f : Int → Option β) :
+    (tryUnits u n).bind f =
+      guardO ((-9223372036854775808 ≤ n * u ∧ n * u ≤ 9223372036854775807) ∧
+              (-9223372036854775 ≤ n * u ∧ n * u ≤ 9223372036854775)) (f (n * u)) := by
+  unfold tryUnits i64? trySeconds guardO
+  by_cases h1 : -9223372036854775808 ≤ n * u ∧ n * u ≤ 9223372036854775807 <;>
+    by_cases h2 : -9223372036854775 ≤ n * u ∧ n * u ≤ 9223372036854775 <;> simp [h1, h2]
+
+theorem tryUnits_eq (u n : Int) :
+    tryUnits u n =
+      guardO ((-9223372036854775808 ≤ n * u ∧ n * u ≤ 9223372036854775807) ∧
+              (-9223372036854775 ≤ n * u ∧ n * u ≤ 9223372036854775)) (some (n * u)) := by
+  have := tryUnits_bind u n some
+  simpa using this
+
+theorem checkedAddSigned_bind {β} (t d : Int) (f : Int → Option β) :
+    (checkedAddSigned t d).bind f = guardO (chronoMinSec ≤ t + d ∧ t + d ≤ chronoMaxSec) (f (t + d)) := by
+  unfold checkedAddSigned guardO; split <;> simp
+
+theorem checkedAddSigned_eq (t d : Int) :
+    checkedAddSigned t d = guardO (chronoMinSec ≤ t + d ∧ t + d ≤ chronoMaxSec) (some (t + d)) := rfl
+
+/-- `excel_to_date_time_object_checked` as it is in the source — base date by the two thresholds, the floor /
+    fraction chain, the saturating `as i64`, `Duration::try_*` and `checked_add_signed` with `?` — is the model's
+    `excelToEpochSecondsChecked` (`none` = the function returns `None`); the unused time-zone argument is
+    irrelevant.  Both sides are brought to guard normal form, so the order of the checks does not matter. -/
+theorem gen_excel_to_date_time_object_checked (F : Type) [FloatOps F] (ts : F) (tz : Option (List Char)) :
+    excel_to_date_time_object_checked F refChrono ts tz = excelToEpochSecondsChecked ts := by
+  obtain ⟨b1, b2, b3⟩ := base_seconds
+  unfold excel_to_date_time_object_checked excelToEpochSecondsChecked baseFor base1970 base18991231 base18991230
+  simp only [rt_f64_as_i64_eq, rt_try_units_eq, rt_checked_add_signed_eq, midnight_ref, rf_ofInt, rf_add, rf_sub,
+    rf_mul, rf_div, rf_floor, rf_round, rf_lt, rf_toInt, Option.bind_eq_bind, bind, tryUnits_bind, tryUnits_eq,
+    checkedAddSigned_bind, checkedAddSigned_eq, guardO_bind, guardO_guardO, Option.bind_some]
+  rcases Bool.eq_false_or_eq_true (FloatOps.lt ts (FloatOps.ofInt 1 : F)) with h1 | h1 <;>
+  rcases Bool.eq_false_or_eq_true (FloatOps.lt ts (FloatOps.ofInt 60 : F)) with h60 | h60 <;>
+    simp only [h1, h60, b1, b2, b3, Bool.not_true, Bool.not_false, Bool.false_eq_true, Bool.true_eq_false, eq_self, if_true,
+      if_false, ↓reduceIte, Int.zero_mul] <;> opt_eq
+
+/-- the public `excel_to_date_time_object` as it is in the source (`…_checked(..).expect(..)`): `none` = the Rust
+    panics, exactly where the checked function returns `None` -/
 theorem gen_excel_to_date_time_object (F : Type) [FloatOps F] (ts : F) (tz : Option (List Char)) :
-    excel_to_date_time_object F refChrono ts tz = excelToEpochSeconds ts := by
-  have e1970 : daysFromCivil 1970 1 1 = 0 := by decide
-  unfold excel_to_date_time_object excelToEpochSeconds splitSeconds baseFor Chrono.midnight refChrono
-    base1970 base18991231 base18991230
-  simp only [rf_ofInt, rf_add, rf_sub, rf_mul, rf_div, rf_floor, rf_round, rf_lt, rf_toInt, e1970]
-  int_eq
+    excel_to_date_time_object F refChrono ts tz = excelToEpochSecondsChecked ts := by
+  unfold excel_to_date_time_object
+  rw [gen_excel_to_date_time_object_checked]
+  cases excelToEpochSecondsChecked ts <;> rfl
+
+/-- the end of `format_as_date` as it is in the source — `match excel_to_date_time_object_checked(value, None)`,
+    `None => return value.to_string()`, otherwise chrono's rendering of the date-time under the converted format —
+    followed by the trimming `to_formatted_string` does, is the model's `formatAsDateChecked`: `g` stands for
+    `f64::to_string(value)`, chrono's `format(..).to_string()` is represented by the model's `strftime`
+    (`none` = outside the modelled specifiers), `sf` is the strftime string of the format `f` -/
+theorem gen_format_as_date_tail (F : Type) [FloatOps F] (f g sf : List Char) (ts : F) (h : strftimeOf f = some sf) :
+    (format_as_date_tail F refChrono (fun t s => strftime (ofEpochSeconds t) s (s.length + 1)) (fun _ => g) ts sf).map trimBlanks
+      = formatAsDateChecked f g ts := by
+  unfold format_as_date_tail formatAsDateChecked
+  rw [gen_excel_to_date_time_object_checked, h]
+  cases excelToEpochSecondsChecked ts <;> simp
 
 end Umya.Gen
